@@ -65,9 +65,12 @@ def gen_obj(rng, ascii_only):
         build=[("var", "BumpedBranch"), ("var", "Distance"), ("var", "BumpedCommitHashShort")])
     v = objgen.rand_vars(rng, ascii_only=ascii_only, bound=2 ** 32)
     if rng.random() < 0.06:
-        v["bumped_timestamp"] = rng.choice([10 ** 11 - 1, 10 ** 11, 10 ** 11 + 86400 * 31, 253402300799, 2 ** 33, 2 ** 36])
+        v["bumped_timestamp"] = rng.choice([10 ** 11 - 1, 10 ** 11, 10 ** 11 + 86400 * 31, 253402300799, 2 ** 33, 2 ** 36, 0, 0, 1, 86399, 86400, 2 ** 31 - 1, 2 ** 31])
     if rng.random() < 0.03:
-        v["last_timestamp"] = rng.choice([10 ** 11, 253402300799, 99999999999])
+        v["last_timestamp"] = rng.choice([10 ** 11, 253402300799, 99999999999, 0, 1])
+    if rng.random() < 0.08:
+        # words that merely contain the keywords a template result is compared with ("none", "null", "nil")
+        v["bumped_branch"] = rng.choice(["feature/vanilla-theme", "nonetheless", "nullable-types", "Manila", "none-such", "xnullx", "NONE.1", "phenyl/nil-check", "annul", "release/nonempty"])
     clean = lambda s: s.replace(L, "").replace(R, "").replace("\x00", "") if isinstance(s, str) else s
     for k in ("bumped_branch", "bumped_commit_hash", "last_commit_hash", "last_branch"):
         v[k] = clean(v[k])
@@ -344,6 +347,14 @@ def work_binary(bins, seed, n):
             if r["exit"] != 0:
                 ok = False
                 # refused by --output-format: `{{ semver }}` / `{{ pep440 }}` "equal what --output-format prints" - there is nothing they could equal
+                if fmt == "pep440" and "semver" in direct:
+                    # ... while everything that does not mention pep440 is untouched by that refusal
+                    for t_, want_ in (("{{ semver }}", direct["semver"]), ("{{ semver_obj.base_part }}", direct["semver"].split("-")[0].split("+")[0])):
+                        rs = core.run_zerv(bins, ["version", "--source", "stdin", "--output-template", t_], stdin=text)
+                        k += 1
+                        if rs["exit"] != 0 or rs["out"].rstrip("\n") != want_:
+                            bad.append(("template-semver-differs", "[binary] --output-format semver prints %r but --output-template %r gives %r (exit %s: %s)" % (
+                                direct["semver"], t_, rs["out"].rstrip("\n"), rs["exit"], rs["err"].strip()[:100]), dict(kind="bin", ron=text)))
                 for var in ((fmt,) if fmt == "semver" else (fmt, "pep440_obj.base_part")):
                     rt = core.run_zerv(bins, ["version", "--source", "stdin", "--output-template", "{{ %s }}" % var], stdin=text)
                     k += 1
@@ -364,11 +375,21 @@ def work_binary(bins, seed, n):
             continue
         for sig, why in judge_fields(vals, names, v, direct):
             bad.append((sig, "[binary] " + why, case))
-        # prefix option applies to templates as well
-        r3 = core.run_zerv(bins, ["version", "--source", "stdin", "--output-template", "{{ semver }}", "--output-prefix", "v"], stdin=text)
-        k += 1
-        if r3["exit"] == 0 and r3["out"].rstrip("\n") != "v" + direct["semver"]:
-            bad.append(("template-semver-differs", "[binary] prefix+{{ semver }} printed %r, direct %r" % (r3["out"], direct["semver"]), case))
+        # the variables on their own, without the delimiters the field template puts around them
+        for var, want in (("semver", direct["semver"]), ("pep440", direct["pep440"]), ("v{{ semver }}|{{ pep440 }}", None)):
+            t3 = var if "{{" in var else "{{ %s }}" % var
+            r3 = core.run_zerv(bins, ["version", "--source", "stdin", "--output-template", t3], stdin=text)
+            k += 1
+            want3 = want if want is not None else "v%s|%s" % (direct["semver"], direct["pep440"])
+            if r3["exit"] != 0 or r3["out"].rstrip("\n") != want3:
+                bad.append(("template-%s-differs" % ("semver" if "semver" in var else "pep440"), "[binary] --output-template %r printed %r (exit %s), --output-format prints %r" % (
+                    t3, r3["out"].rstrip("\n"), r3["exit"], want3), case))
+        br = v.get("bumped_branch")
+        if br and br.strip() == br and br.lower() not in ("none", "null", "nil") and "\n" not in br and "\r" not in br:
+            r4 = core.run_zerv(bins, ["version", "--source", "stdin", "--output-template", "{{ bumped_branch }}"], stdin=text)
+            k += 1
+            if r4["exit"] != 0 or r4["out"].rstrip("\n") != br:
+                bad.append(("scalar-variable-differs", "[binary] --output-template '{{ bumped_branch }}' printed %r (exit %s), the variable is %r" % (r4["out"].rstrip("\n"), r4["exit"], br), case))
     return dict(n=k, bad=bad)
 
 
